@@ -299,7 +299,7 @@ func c05Payload(c *Ctx, fn *Fn, want []wantWrite, flag string) {
 	for i, w := range want {
 		got := ws[i]
 		_, m := Match(w.arg, got.Arg)
-		ok := m && got.Method == w.method && len(got.Guards) == w.guards
+		ok := m && kindOf(got.Method) == kindOf(w.method) && len(got.Guards) == w.guards
 		key := fn.Name + " › #" + itoa(i) + " " + w.name
 		if ok && w.method == "WriteByte" {
 			// the byte is decided by the flag alone
